@@ -310,7 +310,7 @@ def ev_hist(case):
             if not mw or int(mw.group(1)) != m['w']:
                 return core.R(False, 'summary-warn', 'summary/warnings', 'summary warnings %s, model %d on %s' % (mw and mw.group(1), m['w'], d))
         ch = channel(o, opt)
-        heads = [l for l in re.split(r'[\r\n]', ch) if re.match(r'(> > > a\.asm\(\d+\)|a\.asm:\d+[: ]|> > > INTERNAL|INTERNAL:)', l)]
+        heads = [l for l in re.split(r'[\r\n]', ch) if re.match(r'(> > > a\.asm\(\d+\)|a\.asm:\d+[: ]|> > > INTERNAL|INTERNAL[: ])', l)]
         nw = sum(1 for l in heads if 'warning:' in l or re.search(r'warning #\d+:', l))
         ne = len(heads) - nw
         if (ne, nw) != (m['le'], m['lw']):
